@@ -161,15 +161,29 @@ def stop_and_report(ctx, P):
         ctx.unrecognised("STOP: Simulation.get_all_records not found")
         return
     cls, fn = r
-    w = Walker(P, sim, keep=lambda e: (e.kind == "call" and e.d["meth"] == "get_all_individuals") or e.kind == "return", inline=rules.new_helper, loop_iters=(0, 1))
+    w = Walker(P, sim, keep=lambda e: (e.kind == "call" and e.d["meth"] == "get_all_individuals") or e.kind in ("return", "reads") or
+               (e.kind == "assign" and e.d["target"].startswith("self.all_records")), inline=rules.new_helper, loop_iters=(0, 1),
+               reads=lambda a: a.startswith("all_records"))
     bad, n = None, 0
+    reads = []
     for st in w.paths_of(cls, fn):
         if st.status != "return":
             continue
         n += 1
         if not any(e.kind == "call" for e in st.events):
             bad = bad or st
-    reads = [x for x in rules.walk(P, sim, fn) if isinstance(x, ast.Attribute) and isinstance(x.ctx, ast.Load) and x.attr.startswith("all_records") and unparse(x.value) == "self"]
+        # a read of the stored list is a stale answer unless this very call has just stored the freshly collected records into it
+        fresh = set()
+        seen_collect = False
+        for e in st.events:
+            if e.kind == "call":
+                seen_collect = True
+            elif e.kind == "assign" and seen_collect:
+                fresh.add(e.d["target"][len("self."):])
+            elif e.kind == "reads":
+                for a_ in e.d["attrs"]:
+                    if a_ not in fresh and not reads:
+                        reads.append(e.node)
     ob.ok("get_all_records", "%d returning path(s)" % n)
     if bad is not None or reads or n == 0:
         ctx.violation(ob, "R10.epilogue", "Simulation.get_all_records", unparse(reads[0]) if reads else "return", "records-not-recollected",
